@@ -118,6 +118,11 @@ struct Asm {
     n_labels: usize,
     pending: Vec<usize>,
     tmp_counter: u32,
+    /// when set, a temporary requested in a later instruction with a different size than the previous one reuses the
+    /// previous unique offset (Ghidra's per-instruction unique offsets recur with different sizes across instructions;
+    /// the IR keys variables on (name, size), so the two are distinct variables sharing a name)
+    tmp_share: bool,
+    tmp_last: (u64, usize),
 }
 
 impl Asm {
@@ -137,7 +142,11 @@ impl Asm {
     }
     /// Ghidra reuses a small set of unique names; so do we.
     fn tmp(&mut self, size: u64) -> Value {
-        self.tmp_counter = (self.tmp_counter + 1) % 24;
+        let share = self.tmp_share && self.tmp_last.0 != 0 && self.tmp_last.0 != size && self.tmp_last.1 != self.insns.len();
+        self.tmp_last = (size, self.insns.len());
+        if !share {
+            self.tmp_counter = (self.tmp_counter + 1) % 24;
+        }
         vtmp(&format!("$U{:x}", 0x2000 + self.tmp_counter * 0x80), size)
     }
 }
@@ -1626,6 +1635,7 @@ impl Fg {
 /// Generate one function; returns the assembled blocks.
 fn gen_function(pg: &mut Pg, fidx: usize) -> (Assembled, bool, bool) {
     let mut asm = Asm::default();
+    asm.tmp_share = fidx % 3 == 2;
     let exit_label = asm.label();
     let big_frame = pg.rng.chance(1, 12);
     let mut f = Fg {
